@@ -37,7 +37,7 @@ released in between (cover `back_to_back_after_register_write` shows it is reach
 """
 import z3
 from hwv.contract import B, bits, zx, bvc
-from luna.gateware.interface.psram import HyperBusPHY, HyperRAMInterface
+from luna.gateware.interface.psram import HyperBusPHY, HyperRAMInterface, HyperBusDQSPHY, HyperRAMDQSInterface
 
 LEVEL = "proof"
 EXPLANATION = ("Real HyperRAMInterface with an open HyperBusPHY record. Ghost = transaction phase machine + latched "
@@ -252,5 +252,252 @@ def interface(c):
     c.cover("back_to_back_after_register_write", z3.And(bus == WR, g_reg == 1, start))
 
 
+# ======================================================================================================================
+# HyperRAMDQSInterface: the 32-bit, DQS-group (4:1 PHY) variant of the same controller.
+#
+# One 'sync' clock moves 32 bits = two HyperBus clocks, so the 48-bit command-address word takes two sync clocks:
+#     CAW0: DQ = CA[47:16]         CAW1: DQ = CA[15:0] followed by 16 zero bits (the 4th bus clock is padding)
+# Spec machine (ghosts; driven by the controller-side inputs start_transfer / perform_write / register_space /
+# single_page / address / final_word and the PHY-side inputs datavalid / rwds.i only):
+#     IDLE --start--> SELECT (RWDS sampled) -> CAW0 -> CAW1 --register write--> WR -> IDLE
+#                                                    CAW1 --otherwise--> LAT (Ld+1 clocks) --> RD | WR
+#     RD --datavalid & final_word--> REC -> IDLE         WR(memory) --final_word--> REC -> IDLE
+# Ld = HyperRAMDQSInterface.HIGH_LATENCY_CLOCKS: the class always waits the doubled count ("extra_latency | 1", FIXME in
+# the source: fixed-latency part), whatever RWDS showed when sampled in SELECT; the contract pins exactly that (ghost
+# g_extra = RWDS bit 0 as sampled; the clauses hold for both values) and does not certify it against a data sheet.
+# Opened: the PHY.  HyperRAMDQSInterface only takes a `phy` record; the contract passes a plain HyperBusDQSPHY() record
+# (the class's own record type), so HyperRAMDQSPHY with its ECP5 primitives (DQSBUFM, DDRDLLA, ODDRX2DQA, ...) is not
+# elaborated: phy.dq.i / rwds.i / datavalid are free inputs (all memory RWDS / data-valid behaviours), the other PHY
+# fields are observed outputs.
+# ======================================================================================================================
+D_IDLE, D_SELECT, D_CA0, D_CA1, D_LAT, D_RD, D_WR, D_REC = range(8)
+D_STATE = {D_IDLE: "IDLE", D_SELECT: "LATCH_RWDS", D_CA0: "SHIFT_COMMAND0", D_CA1: "SHIFT_COMMAND1",
+           D_LAT: "HANDLE_LATENCY", D_RD: "READ_DATA", D_WR: "WRITE_DATA", D_REC: "RECOVERY"}
+
+
+def dqs_interface(c):
+    phy = HyperBusDQSPHY()
+    d = HyperRAMDQSInterface(phy=phy)
+    L = d.HIGH_LATENCY_CLOCKS
+    ts = c.unit(d, {"start": d.start_transfer, "address": d.address, "register_space": d.register_space,
+                    "perform_write": d.perform_write, "single_page": d.single_page, "final_word": d.final_word,
+                    "write_data": d.write_data, "dq_i": phy.dq.i, "rwds_i": phy.rwds.i, "datavalid": phy.datavalid,
+                    "cs": phy.cs, "clk_en": phy.clk_en, "dq_o": phy.dq.o, "dq_e": phy.dq.e, "rwds_o": phy.rwds.o,
+                    "rwds_e": phy.rwds.e, "phy_read": phy.read, "idle": d.idle, "read_ready": d.read_ready,
+                    "write_ready": d.write_ready, "read_data": d.read_data})
+    I, O = ts.inputs, ts.outputs
+    P = lambda v: bvc(v, 4)
+    IDLE, SELECT, CA0, CA1, LAT, RD, WR, REC = D_IDLE, D_SELECT, D_CA0, D_CA1, D_LAT, D_RD, D_WR, D_REC
+    STATE = D_STATE
+
+    ph = c.ghost("ph", 4, init=IDLE)
+    bus = c.ghost("bus", 4, init=IDLE)            # phase of the previous cycle
+    n = c.ghost("lat_cycles", 5, init=0)
+    g_write = c.ghost("g_write", 1, init=0)
+    g_reg = c.ghost("g_reg", 1, init=0)
+    g_single = c.ghost("g_single", 1, init=0)
+    g_addr = c.ghost("g_addr", 32, init=0)
+    g_extra = c.ghost("g_extra", 1, init=0)               # RWDS (bit 0) as sampled in the SELECT clock
+    p_wdata = c.ghost("prev_write_data", 32, init=0)      # write_data input one cycle ago
+    first_wr = c.ghost("ca_to_write", 6, init=0)          # sync clocks since the last command word was on DQ (saturating)
+
+    start = z3.And(ph == IDLE, I["start"] == 1)
+    word_in = z3.And(ph == RD, I["datavalid"] == 1)       # the PHY reports a received word
+    fin = I["final_word"] == 1
+    is_ph = lambda *ps: z3.Or(*[ph == p for p in ps])
+    is_bus = lambda *ps: z3.Or(*[bus == p for p in ps])
+    reg_write = z3.And(g_reg == 1, g_write == 1)
+    nxt = z3.If(ph == IDLE, z3.If(start, P(SELECT), P(IDLE)),
+          z3.If(ph == SELECT, P(CA0), z3.If(ph == CA0, P(CA1),
+          z3.If(ph == CA1, z3.If(reg_write, P(WR), P(LAT)),
+          z3.If(ph == LAT, z3.If(n == L, z3.If(g_write == 1, P(WR), P(RD)), P(LAT)),
+          z3.If(ph == RD, z3.If(z3.And(word_in, fin), P(REC), P(RD)),
+          z3.If(ph == WR, z3.If(g_reg == 1, P(IDLE), z3.If(fin, P(REC), P(WR))),
+          P(IDLE))))))))
+    c.set_next(ph, nxt)
+    c.set_next(bus, ph)
+    c.set_next(n, z3.If(ph == LAT, n + 1, bvc(0, 5)))
+    c.set_next(g_write, z3.If(start, I["perform_write"], g_write))
+    c.set_next(g_reg, z3.If(start, I["register_space"], g_reg))
+    c.set_next(g_single, z3.If(start, I["single_page"], g_single))
+    c.set_next(g_addr, z3.If(start, I["address"], g_addr))
+    c.set_next(g_extra, z3.If(ph == SELECT, bits(I["rwds_i"], 0, 0), g_extra))
+    c.set_next(p_wdata, I["write_data"])
+    c.set_next(first_wr, z3.If(ph == CA1, bvc(0, 6), z3.If(first_wr == 63, first_wr, first_wr + 1)))
+
+    # the command-address word of the transaction, from the request as sampled (HyperBus bit assignment)
+    ca = z3.Concat(~g_write, g_reg, ~g_single, bits(g_addr, 31, 3), bvc(0, 13), bits(g_addr, 2, 0))
+    assert ca.size() == 48
+    caw0 = bits(ca, 47, 16)
+    caw1 = z3.Concat(bits(ca, 15, 0), bvc(0, 16))
+
+    # ---- refinement map
+    fsm = ts.fsm("fsm_state")
+    c.inv("fsm_legal", fsm.legal())
+    c.inv("phase_legal", z3.ULE(ph, REC))
+    for p, st in STATE.items():
+        c.inv(f"{st.lower()}_iff_phase", fsm.is_(st) == (ph == p))
+    c.try_inv("latency_counter", lambda: z3.Implies(ph == LAT, z3.And(z3.ULE(n, L), zx(ts.sig("latency_clocks_remaining"), 5) == L - n)))
+    c.inv("latency_cycles_bounded", z3.Implies(ph == LAT, z3.ULE(n, L)))
+    c.inv("latency_bus_clock", z3.Implies(ph == LAT, first_wr == zx(n, 6)))
+    c.inv("data_phase_not_before_latency", z3.Implies(z3.Or(ph == RD, z3.And(ph == WR, g_reg == 0)), z3.UGE(first_wr, L + 1)))
+    c.inv("data_word_on_bus_not_before_latency", z3.Implies(z3.And(is_bus(WR, RD), g_reg == 0), z3.UGE(first_wr, L + 2)))
+    c.inv("read_phase_on_bus_not_before_latency", z3.Implies(bus == RD, z3.UGE(first_wr, L + 2)))
+    c.inv("first_data_phase_cycle_time", z3.Implies(z3.And(bus == LAT, is_ph(RD, WR)), first_wr == L + 1))
+    c.inv("last_command_word_time", z3.Implies(bus == CA1, first_wr == 0))
+    c.inv("register_write_data_follows_command", z3.Implies(z3.And(ph == WR, g_reg == 1), bus == CA1))
+    c.inv("register_write_data_time", z3.Implies(z3.And(bus == WR, g_reg == 1), first_wr == 1))
+    in_txn = z3.Not(is_ph(IDLE))
+    c.try_inv("latched_is_read", lambda: z3.Implies(in_txn, ts.sig("is_read") == ~g_write))
+    c.try_inv("latched_is_register", lambda: z3.Implies(in_txn, ts.sig("is_register") == g_reg))
+    c.try_inv("latched_is_multipage", lambda: z3.Implies(in_txn, ts.sig("is_multipage") == ~g_single))
+    c.try_inv("latched_address", lambda: z3.Implies(in_txn, ts.sig("current_address") == g_addr))
+    c.inv("write_phase_only_in_write_transactions", z3.Implies(is_ph(WR), g_write == 1))
+    c.inv("write_word_on_bus_only_in_write_transactions", z3.Implies(bus == WR, g_write == 1))
+    c.inv("read_phase_only_in_read_transactions", z3.Implies(is_ph(RD), g_write == 0))
+    c.inv("read_on_bus_only_in_read_transactions", z3.Implies(bus == RD, g_write == 0))
+    c.inv("register_write_skips_latency", z3.Implies(is_ph(LAT), z3.Not(reg_write)))
+    succ = {IDLE: (IDLE, SELECT), SELECT: (CA0,), CA0: (CA1,), CA1: (LAT, WR), LAT: (LAT, RD, WR), RD: (RD, REC),
+            WR: (WR, REC, IDLE), REC: (IDLE,)}
+    c.inv("bus_legal", z3.ULE(bus, REC))
+    for p, ss in succ.items():
+        c.inv(f"after_{STATE[p].lower()}", z3.Implies(bus == p, is_ph(*ss)))
+    c.inv("command_to_write_only_for_register_write", z3.Implies(z3.And(bus == CA1, ph == WR), g_reg == 1))
+    c.inv("latency_to_write_only_for_memory_write", z3.Implies(z3.And(bus == LAT, ph == WR), g_reg == 0))
+    c.inv("write_after_write_is_memory", z3.Implies(z3.And(bus == WR, is_ph(WR, REC)), g_reg == 0))
+    c.inv("register_write_is_one_word", z3.Implies(z3.And(bus == WR, g_reg == 1), ph == IDLE))
+    # registered PHY outputs as functions of the previous phase
+    driving_dq = is_bus(CA0, CA1, WR)
+    cs_on = z3.Or(bus != IDLE, ph == SELECT)
+    clk_on = z3.Or(is_bus(SELECT, CA0, CA1, LAT, WR), z3.And(bus == RD, ph == RD))
+    c.inv("dq_enable_reg", (O["dq_e"] == 1) == driving_dq)
+    c.inv("rwds_enable_reg", (O["rwds_e"] == 1) == z3.And(bus == WR, g_reg == 0))
+    c.inv("cs_reg", (O["cs"] == 1) == cs_on)
+    c.inv("clk_en_reg", O["clk_en"] == z3.If(clk_on, bvc(3, 2), bvc(0, 2)))
+    c.inv("phy_read_reg", O["phy_read"] == z3.If(bus == RD, bvc(3, 2), bvc(0, 2)))
+    c.inv("dq_caw0_reg", z3.Implies(bus == CA0, O["dq_o"] == caw0))
+    c.inv("dq_caw1_reg", z3.Implies(bus == CA1, O["dq_o"] == caw1))
+    c.inv("dq_write_reg", z3.Implies(bus == WR, O["dq_o"] == p_wdata))
+    c.inv("rwds_out_reg", O["rwds_o"] == 0)
+
+    # ---- ensures
+    # (1) command-address word
+    c.ensure("command_word_0_to_phy", z3.Implies(bus == CA0, z3.And(O["dq_e"] == 1, O["dq_o"] == caw0)),
+             clause="drives the 48-bit command-address word on DQ during the command phase: first clock CA[47:16] = R/W#, "
+                    "register/memory space, burst type (linear unless single_page), address[31:3]")
+    c.ensure("command_word_1_to_phy", z3.Implies(bus == CA1, z3.And(O["dq_e"] == 1, O["dq_o"] == caw1)),
+             clause="... second clock CA[15:0] = 13 reserved zero bits, address[2:0], then 16 padding zero bits")
+    c.ensure("command_fields", z3.Implies(bus == CA0, z3.And(
+        bits(O["dq_o"], 31, 31) == ~g_write, bits(O["dq_o"], 30, 30) == g_reg, bits(O["dq_o"], 29, 29) == ~g_single,
+        bits(O["dq_o"], 28, 0) == bits(g_addr, 31, 3))),
+        clause="(read/write, memory/register space, burst type, address): R/W# bit, register-space bit, burst-type bit and "
+               "upper address bits, field by field")
+    c.ensure("command_follows_request_in_fixed_time", z3.Implies(start, z3.And(
+        c.nx(ph) == SELECT, c.nx(ph, 2) == CA0, c.nx(bus, 3) == CA0, c.nx(bus, 4) == CA1)),
+        clause="each transaction: the command phase is the 3rd..4th clock after the accepted request")
+    c.ensure("command_uses_request_as_sampled", z3.Implies(start, z3.And(
+        c.nx(g_write) == I["perform_write"], c.nx(g_reg) == I["register_space"], c.nx(g_single) == I["single_page"],
+        c.nx(g_addr) == I["address"])),
+        clause="(read/write, memory/register space, burst type, address) are those of the request")
+    c.ensure("request_fields_stable_during_transaction", z3.Implies(z3.Not(start), z3.And(
+        c.nx(g_write) == g_write, c.nx(g_reg) == g_reg, c.nx(g_single) == g_single, c.nx(g_addr) == g_addr)),
+        clause="changes of the request inputs during a transaction do not alter its command")
+    c.ensure("clock_enabled_with_command", z3.Implies(is_bus(CA0, CA1), z3.And(O["clk_en"] == 3, O["cs"] == 1)),
+             clause="command words are clocked out with chip select asserted")
+    # (2) chip select
+    c.ensure("cs_asserted_throughout_transaction", (O["cs"] == 1) == cs_on,
+             clause="keeps chip select asserted until the transaction ends: CS is high exactly from the clock after the "
+                    "request is accepted through the last data word (register write) / the recovery clock after it "
+                    "(memory accesses and register reads; bus clock already stopped), and low otherwise")
+    c.ensure("cs_not_dropped_mid_transaction", z3.Implies(z3.And(O["cs"] == 1, is_ph(SELECT, CA0, CA1, LAT, RD, WR)),
+                                                        c.nx(O["cs"]) == 1),
+             clause="keeps chip select asserted until the transaction ends")
+    c.ensure("cs_released_after_transaction", z3.Implies(z3.And(ph == IDLE, I["start"] == 0), c.nx(O["cs"]) == 0),
+             clause="chip select is released when the transaction has ended and no new one is requested")
+    # (3) latency
+    c.ensure("first_write_data_exactly_after_latency",
+             z3.Implies(z3.And(O["write_ready"] == 1, bus != WR, g_reg == 0),
+                        z3.And(first_wr == L + 1, c.nx(O["dq_e"]) == 1, c.nx(O["dq_o"]) == I["write_data"], c.nx(first_wr) == L + 2)),
+             clause="waits the latency count before memory data: in a memory write the first data word is taken after the "
+                    "L+1 latency clocks that follow the last command word and is on DQ in the clock after")
+    c.ensure("memory_write_data_not_before_latency",
+             z3.Implies(z3.And(O["dq_e"] == 1, z3.Not(is_bus(CA0, CA1)), g_reg == 0), z3.And(bus == WR, z3.UGE(first_wr, L + 2))),
+             clause="waits the latency count before memory data (write): DQ carries no data word earlier")
+    c.ensure("read_data_not_before_latency", z3.Implies(O["read_ready"] == 1, z3.And(ph == RD, g_write == 0, z3.UGE(first_wr, L + 1))),
+             clause="waits the latency count before memory data (read): no word is accepted from the PHY earlier than "
+                    "L+1 clocks after the last command word, and only in read transactions")
+    c.ensure("read_capture_not_before_latency", z3.Implies(O["phy_read"] != 0, z3.And(bus == RD, g_write == 0, z3.UGE(first_wr, L + 2))),
+             clause="waits the latency count before memory data (read): the PHY read/capture enable is raised only after the latency wait")
+    c.ensure("read_window_opens_exactly_after_latency",
+             z3.Implies(z3.And(bus == CA1, g_write == 0), z3.And(*[z3.And(c.nx(O["read_ready"], k) == 0, c.nx(O["phy_read"], k) == 0) for k in range(0, 3)])),
+             clause="waits the latency count before memory data (read)")
+    c.ensure("latency_wait_is_exact", z3.Implies(ph == LAT,
+             z3.And(O["write_ready"] == 0, O["read_ready"] == 0, O["idle"] == 0, z3.ULE(n, L),
+                    z3.Implies(n == L, z3.If(g_write == 1, c.nx(O["write_ready"]) == 1, c.nx(ph) == RD)),
+                    z3.Implies(n != L, z3.And(c.nx(O["write_ready"]) == 0, c.nx(ph) == LAT)))),
+             clause="waits the latency count before memory data: exactly L+1 wait clocks (the doubled count, whatever RWDS "
+                    "showed when it was sampled), then the data phase")
+    c.ensure("register_write_has_no_latency", z3.Implies(z3.And(bus == WR, g_reg == 1), first_wr == 1),
+             clause="register writes: the data word directly follows the command (zero latency)")
+    c.ensure("every_other_transaction_waits_latency",
+             z3.Implies(z3.And(ph == CA1, z3.Not(reg_write)),
+                        z3.And(c.nx(O["write_ready"]) == 0, c.nx(O["read_ready"]) == 0, c.nx(ph) == LAT, c.nx(n) == 0,
+                               c.nx(O["dq_e"], 2) == 0)),
+             clause="every read (memory or register) and every memory write goes through the latency wait; only a register write has zero latency")
+    # (4) drive enables
+    c.ensure("dq_driven_iff_command_or_write_phase", (O["dq_e"] == 1) == driving_dq,
+             clause="drives DQ only during command and write phases (and does drive it there)")
+    c.ensure("rwds_driven_iff_memory_write_data_phase", (O["rwds_e"] == 1) == z3.And(bus == WR, g_reg == 0),
+             clause="drives RWDS only during the write phase (of memory writes; register writes have no mask)")
+    c.ensure("rwds_mask_zero", O["rwds_o"] == 0, clause="write phase: no byte is masked")
+    c.ensure("write_phase_only_in_write_transactions", z3.Implies(z3.Or(bus == WR, ph == WR), g_write == 1),
+             clause="write phases occur only in transactions requested as writes")
+    c.ensure("read_transaction_never_drives_after_command",
+             z3.Implies(z3.And(g_write == 0, is_bus(LAT, RD, REC)), z3.And(O["dq_e"] == 0, O["rwds_e"] == 0)),
+             clause="never while the memory drives them: in a read transaction nothing is driven after the command phase")
+    c.ensure("rwds_never_driven_during_command_and_latency",
+             z3.Implies(is_bus(IDLE, SELECT, CA0, CA1, LAT, RD, REC), O["rwds_e"] == 0),
+             clause="never while the memory drives them: RWDS belongs to the memory during command (latency indication), "
+                    "latency and read data")
+    c.ensure("nothing_driven_in_latency_or_idle", z3.Implies(is_bus(IDLE, SELECT, LAT, REC), z3.And(O["dq_e"] == 0, O["rwds_e"] == 0)),
+             clause="drives DQ/RWDS only during command and write phases, never during latency")
+    c.ensure("turnaround_before_read_data", z3.Implies(z3.Or(ph == RD, bus == RD), z3.And(O["dq_e"] == 0, O["rwds_e"] == 0)),
+             clause="never while the memory drives them: DQ/RWDS are released whenever read data can be captured or accepted")
+    c.ensure("write_data_word_on_dq", z3.Implies(bus == WR, z3.And(O["dq_e"] == 1, O["dq_o"] == p_wdata, O["cs"] == 1, O["clk_en"] == 3)),
+             clause="write phase: the word taken at write_ready is driven on DQ in the next clock, with CS asserted")
+    # (5) handshake outputs
+    c.ensure("read_ready_only_for_read_data", (O["read_ready"] == 1) == word_in,
+             clause="read_ready strobes exactly when the PHY reports a received word in the read phase")
+    c.ensure("read_data_is_phy_data", O["read_data"] == z3.If(word_in, I["dq_i"], bvc(0, 32)),
+             clause="the word reported with read_ready is the PHY's DQ input")
+    c.ensure("phy_read_iff_read_phase", O["phy_read"] == z3.If(bus == RD, bvc(3, 2), bvc(0, 2)),
+             clause="the PHY is told to capture exactly during the read phase")
+    c.ensure("idle_iff_no_transaction", (O["idle"] == 1) == (ph == IDLE), clause="a transaction starts only from idle")
+    c.ensure("write_ready_iff_write_phase", (O["write_ready"] == 1) == (ph == WR), clause="write data is taken only in the write phase")
+    c.ensure("memory_write_ends_exactly_at_final_word", z3.Implies(z3.And(O["write_ready"] == 1, g_reg == 0), z3.And(
+        (c.nx(O["write_ready"]) == 1) == z3.Not(fin), (c.nx(ph) == REC) == fin, (c.nx(O["clk_en"], 2) == 0) == fin)),
+        clause="all final-word timings: a memory write continues word by word and ends (bus clock stopped after the last word) exactly at the word flagged final")
+    c.ensure("read_ends_exactly_at_final_word", z3.Implies(ph == RD, z3.And((c.nx(ph) == REC) == z3.And(word_in, fin),
+                                                                          (c.nx(O["clk_en"]) == 0) == z3.And(word_in, fin))),
+        clause="all final-word timings: a read ends (bus clock stopped) exactly when a received word is flagged final")
+    c.ensure("transaction_end_releases_cs", z3.Implies(z3.And(ph == REC, c.nx(I["start"]) == 0), c.nx(O["cs"], 2) == 0),
+        clause="chip select is released after the recovery clock")
+    c.ensure("register_write_is_one_word", z3.Implies(z3.And(O["write_ready"] == 1, g_reg == 1), z3.And(c.nx(O["idle"]) == 1, c.nx(O["write_ready"]) == 0)),
+        clause="register writes transfer exactly one word")
+    c.ensure("clock_gated_outside_transfer", O["clk_en"] == z3.If(clk_on, bvc(3, 2), bvc(0, 2)),
+             clause="(beyond the statement) the bus clock runs from the select clock to the end of the data phase")
+
+    c.cover_depth = 20
+    c.cover("register_write_done", z3.And(bus == WR, g_reg == 1, g_addr != 0, p_wdata == 0xBEEF))
+    c.cover("memory_write_two_words", z3.And(bus == WR, ph == REC, g_reg == 0, c.nx(bus) == REC))
+    c.cover("memory_read_final_word", z3.And(word_in, fin, g_reg == 0, g_single == 1))
+    c.cover("register_read_final_word", z3.And(word_in, fin, g_reg == 1))
+    c.cover("read_word_not_final", z3.And(word_in, z3.Not(fin)))
+    c.cover("first_memory_write_word_low_rwds", z3.And(bus == WR, first_wr == L + 2, g_extra == 0))
+    c.cover("first_memory_write_word_high_rwds", z3.And(bus == WR, first_wr == L + 2, g_extra == 1))
+    c.cover("back_to_back_after_register_write", z3.And(bus == WR, g_reg == 1, start))
+
+
 def contracts(tier):
     yield ("HyperRAMInterface", "", interface)
+    yield ("HyperRAMDQSInterface", "", dqs_interface)
